@@ -304,6 +304,16 @@ def nameTable (bitwise : Bool) (members : List (String Ã— Int)) : List (String Ã
   if bitwise then (members.filter fun m => isPow2 m.2).map (fun m => (m.1.toLower, m.2)) ++ [("none", 0)]
   else (canonicalEnum [] members).map fun m => (m.1.toLower, m.2)
 
+/-- `str.split(' ')` -/
+def splitBlankChars : List Char â†’ List (List Char)
+  | [] => [[]]
+  | c :: cs =>
+    match splitBlankChars cs with
+    | [] => [[]]            -- unreachable
+    | p :: ps => if c == ' ' then [] :: p :: ps else (c :: p) :: ps
+
+def splitBlank (s : String) : List String := (splitBlankChars s.toList).map String.ofList
+
 def flagsByName (ty : String) (table : List (String Ã— Int)) : List String â†’ Except E Nat
   | [] => .ok 0
   | p :: ps =>
@@ -325,7 +335,7 @@ def flagOfInt (members : List (String Ã— Int)) (i : Int) : Option Int :=
 
 def enumByName (ty : String) (bitwise : Bool) (members : List (String Ã— Int)) (s : String) : Except E Val :=
   if bitwise then
-    match flagsByName ty (nameTable true members) (s.splitOn " ") with
+    match flagsByName ty (nameTable true members) (splitBlank s) with
     | .ok r => .ok (.int r)
     | .error e => .error e
   else
